@@ -4,6 +4,7 @@ From Coq Require Import List NArith ZArith.
 From Goit Require Import Bytes Obj Commit World Repo LogFacts.
 From Goit Require Import BranchFacts ChainFacts LogView LogViewFacts.
 From Goit Require Import Bridge.
+From Goit Require RefusalFacts.
 Import ListNotations.
 
 (* T0 (tie to the source): every regexp literal of the current Go source denotes
@@ -97,3 +98,22 @@ Print Assumptions C14_log_on_every_reachable_repository.
 Print Assumptions C14_chain_of_every_commit.
 Print Assumptions C14_each_with_its_own_author_and_message.
 Print Assumptions C14_source_patterns_are_the_models.
+
+(* corners: log never changes anything, whatever its outcome, on every world; with no commit yet it is
+   refused; with k <= 0 it prints nothing *)
+Theorem C14_log_never_writes : forall e n w w' o tr,
+  step (ACmd e (CLog n)) w = (w', o, tr) -> tr = [] /\ w' = w.
+Proof. exact RefusalFacts.log_never_writes. Qed.
+
+Theorem C14_log_without_a_commit_is_refused : forall e n w,
+  (forall x, ctx_of w = Some x -> x_headc x = None) ->
+  step (ACmd e (CLog n)) w = (w, OErr, []).
+Proof. exact RefusalFacts.log_no_commit_refused. Qed.
+
+Theorem C14_log_nonpositive_count_prints_nothing : forall e n w x tip cm,
+  w_inited w = true -> ctx_of w = Some x -> x_headc x = Some (tip, cm) -> (n <= 0)%Z ->
+  step (ACmd e (CLog n)) w = (w, OOk [], []).
+Proof. exact RefusalFacts.log_nonpositive. Qed.
+Print Assumptions C14_log_never_writes.
+Print Assumptions C14_log_without_a_commit_is_refused.
+Print Assumptions C14_log_nonpositive_count_prints_nothing.
